@@ -39,3 +39,29 @@ pub async fn start_language_server<TCompilationProfile: CompilationProfile>(
         .map_err(|e| LocationFreeDiagnostic::from_error(e).wrap_vec())?;
     Ok(())
 }
+
+/// Visibility-only hooks for /verif (contract verification harnesses and replay).
+#[cfg(isographlabs_isograph_verif)]
+pub mod verif_hooks {
+    pub fn api_delta(text: &str) -> (u32, u32) {
+        crate::semantic_tokens::delta_line_delta_start(text)
+    }
+    pub fn api_position(content: &str, index: usize) -> (u32, u32) {
+        let p = crate::format::char_index_to_position(content, index);
+        (p.line, p.character)
+    }
+    pub fn api_range(content: &str, start: usize, len: usize) -> ((u32, u32), (u32, u32)) {
+        let extraction = isograph_schema::IsoLiteralExtraction {
+            const_export_name: None,
+            iso_literal_text: content[start..start + len].to_string(),
+            iso_literal_start_index: start,
+            has_associated_js_function: false,
+            iso_function_called_with_paren: true,
+        };
+        let r = crate::format::verif_get_range_of_extraction(&extraction, content);
+        (
+            (r.start.line, r.start.character),
+            (r.end.line, r.end.character),
+        )
+    }
+}
